@@ -216,7 +216,23 @@ pub fn check_views(step: usize, g: &G, m: &Model, in_sync: bool, case: &Case, cx
     }
     let succ_of = |x: &str| -> Vec<String> { succ_map.get(x).map(|s| s.iter().cloned().collect()).unwrap_or_default() };
     let pred_of = |x: &str| -> Vec<String> { pred_map.get(x).map(|s| s.iter().cloned().collect()).unwrap_or_default() };
-    for x in &universe {
+    // per-node queries: every name of the universe; on universes of more than 300 names the three nodes of highest
+    // degree, 60 seeded others and the absent names
+    let per_node: Vec<String> = if universe.len() <= 300 {
+        universe.clone()
+    } else {
+        let mut pr = crate::core::rng::Rng::new(case.seed ^ (step as u64).wrapping_mul(0xA24B_AED4_963E_E407), "c02.nodes");
+        let mut by_deg: Vec<(usize, &str)> = succ_map.iter().map(|(k, v)| (v.len() + pred_map.get(k).map(|p| p.len()).unwrap_or(0), *k)).collect();
+        by_deg.sort_by(|a, b| b.0.cmp(&a.0).then(a.1.cmp(b.1)));
+        let mut v: Vec<String> = by_deg.iter().take(3).map(|x| x.1.to_string()).collect();
+        for _ in 0..60 {
+            v.push(pr.pick(&universe).clone());
+        }
+        v.push("~absent1".to_string());
+        c.cx.count("probe.nodes_sampled_on_a_large_universe");
+        v
+    };
+    for x in &per_node {
         let present = has(x);
         // all edges touching x
         let r = q!("get_edges_for_node", g.get_edges_for_node(x.clone()).map(|v| canon_real(directed, &v)));
@@ -498,7 +514,7 @@ impl Prop for C02Prop {
                 // a graph of thousands of edges (strategy thresholds), then a short tail
                 let regime = gen::regime_any(&mut hr, true);
                 let mut wr = Rng::new(seed, "workload.huge");
-                case.ops = gen::gen_huge_history(&mut wr, specs, regime, false);
+                case.ops = gen::gen_huge_history_v(&mut wr, specs, regime, false, &[0, 0, 2]);
                 case.params.put("source", crate::core::json::J::s("history loading thousands of edges"));
                 case.envs = vec![Env { keying: if hr.chance(1, 2) { 0 } else { seed | 1 }, pool: if hr.chance(1, 8) { 1 } else { 2 + hr.below(15) }, sched: crate::core::rng::mix(seed, 78) }];
                 return case;
@@ -528,7 +544,7 @@ impl Prop for C02Prop {
     }
     fn cross(&self, _case: &Case, _results: &[EnvResult], _cx: &mut Ctx) {}
     fn rule(&self) -> String {
-        "lifecycle histories (<= 24 ops, incl. derived-graph operations in 1/3 of the runs) stratified over all 96 GraphSpecs, under 2 hash keyings; after EVERY op every read API is queried for every ordered pair of the name universe plus two absent names, every node, random node sets, both adjacency maps, BFS, and compared with the answer derived from the node list and edge multiset; with the hook the 12 private indexes are compared with each other. distinct_nontrivial = distinct (specs, history) whose final graph has edges and either parallel edges or a name order different from the insertion order; one case in 3000 loads 2 100 - 12 500 edges (one to three batches or the constructor, same edge values re-submitted on multi-edge graphs) into 45-180 nodes and continues with a short tail (strategy thresholds); on universes of more than 80 names 600 ordered pairs per step are sampled (both orientations of stored edges and random pairs) instead of all pairs".into()
+        "lifecycle histories (<= 24 ops, incl. derived-graph operations in 1/3 of the runs) stratified over all 96 GraphSpecs, under 2 hash keyings; after EVERY op every read API is queried for every ordered pair of the name universe plus two absent names, every node, random node sets, both adjacency maps, BFS, and compared with the answer derived from the node list and edge multiset; with the hook the 12 private indexes are compared with each other. distinct_nontrivial = distinct (specs, history) whose final graph has edges and either parallel edges or a name order different from the insertion order; one case in 3000 loads 2 100 - 12 500 edges (one to three batches or the constructor, same edge values re-submitted on multi-edge graphs) into 45-180 nodes and continues with a short tail (strategy thresholds); on universes of more than 80 names 600 ordered pairs per step are sampled (both orientations of stored edges and random pairs) instead of all pairs, and on universes of more than 300 names the per-node queries are asked for the 3 nodes of highest degree and 60 sampled names; the large histories come in variants: dense (45-180 nodes), a hub with 1 100 - 1 600 neighbours; in half of them a load of 260-420 edges into ANOTHER graph is rejected part-way on the same thread first (fault, then recovery, at scale)".into()
     }
     fn assumptions(&self) -> Vec<String> {
         vec![
